@@ -58,17 +58,17 @@ def Canon (ops : List MicroOp) (time : Int → Rat) (o : Obj) (k : Nat) : Prop :
   o.dyn = gridDynOf time (fun j => (canonCore ops j).stored) k
 
 /-- either fault-safe code, or no faults at all -/
-def Harmless (ops : List MicroOp) (faulty : Nat → Bool) : Prop :=
+def Harmless (ops : List MicroOp) (faulty : Oracle) : Prop :=
   faultSafe ops = true ∨ faulty = noFault
 
-theorem backendStep_cases (ops : List MicroOp) (faulty : Nat → Bool) (hh : Harmless ops faulty)
+theorem backendStep_cases (ops : List MicroOp) (faulty : Oracle) (hh : Harmless ops faulty)
     (b : BState) (k : Nat) (hc : b.core = canonCore ops k) :
     ((backendStep faulty ops b).2 = true → (backendStep faulty ops b).1.core = canonCore ops (k+1)) ∧
     ((backendStep faulty ops b).2 = false → (backendStep faulty ops b).1.core = canonCore ops k) := by
   constructor
   · intro hok
     unfold backendStep at hok ⊢
-    have := runOps_ok_core faulty ops ⟨b.core.step, [], none⟩ b ⟨canonCore ops k, 0, []⟩ hc hok
+    have := runOps_ok_core faulty ops ⟨b.core.step, [], none, false⟩ b ⟨canonCore ops k, 0, []⟩ hc hok
     rw [this]
     simp only [canonCore, backendStep]
     rw [hc]
@@ -86,7 +86,7 @@ theorem backendStep_cases (ops : List MicroOp) (faulty : Nat → Bool) (hh : Har
 
 theorem stepLoop_canon (ops : List MicroOp) (hinc : lastSetStep ops = some ⟨1, 1⟩)
     (time : Int → Rat) (hm : ∀ a b : Int, a ≤ b → time a ≤ time b)
-    (faulty : Nat → Bool) (hh : Harmless ops faulty) (n : Nat) (o : Obj) (k : Nat)
+    (faulty : Oracle) (hh : Harmless ops faulty) (n : Nat) (o : Obj) (k : Nat)
     (h : Canon ops time o k) :
     ∃ j, j ≤ n ∧ Canon ops time (stepLoop faulty ops time n o).1 (k + j) ∧
       ((stepLoop faulty ops time n o).2 = true → j = n) := by
@@ -141,7 +141,7 @@ theorem startObj_canon (ops : List MicroOp) (time : Int → Rat) (o : Obj) (k : 
     requested number of steps further, exactly that many if the call returned normally -/
 theorem compute_canon (ops : List MicroOp) (hinc : lastSetStep ops = some ⟨1, 1⟩)
     (numStep : Int → Rat → Int) (time : Int → Rat) (hm : ∀ a b : Int, a ≤ b → time a ≤ time b)
-    (faulty : Nat → Bool) (hh : Harmless ops faulty) (o : Obj) (k : Nat)
+    (faulty : Oracle) (hh : Harmless ops faulty) (o : Obj) (k : Nat)
     (h : Pre ops time o k) (e : Rat) :
     ∃ j, j ≤ (numStep (k : Int) e).toNat ∧
       Canon ops time (compute numStep time 0 ops faulty o e).1 (k + j) ∧
